@@ -24,6 +24,7 @@ from schema_util import (
     cassoc,
     cval,
     render_call,
+    render_group,
     ser_outcome,
 )
 
@@ -64,7 +65,7 @@ def doc_expand(g):
 # ----------------------------------------------------------------------------- rendering
 def render_group_form(case):
     text = "".join(render_call(c, kw) for c, kw in case["pre"])
-    text += render_call("run_experiment_group", case["group"])
+    text += render_group(case["group"])
     text += "".join(render_call(c, kw) for c, kw in case["post"])
     return text
 
@@ -149,6 +150,14 @@ def corpus():
     add({"name": "sweep", "run": "./run_benchmark.sh",
          "experiments": [Inst(name="sweep-%d" % t, options={"threads": t}, parallelizable=False) for t in (1, 2)],
          "chain_experiments": True, "deps": [":t0"]}, tag="doc-example")
+    # the same written with positional arguments (documented signature: name, run, experiments, chain_experiments, deps);
+    # several spellings so that the deterministic choice in schema_util.renders_positionally picks some of them
+    for nm in ("sweep", "sweepA", "sweepB", "sweepC", "sweepD", "sweepE"):
+        add({"name": nm, "run": "./run_benchmark.sh",
+             "experiments": [Inst(name="%s-%d" % (nm, t), options={"threads": t}, parallelizable=False) for t in (1, 2)],
+             "chain_experiments": True, "deps": [":t0"]}, tag="doc-example-signature-order")
+        add({"name": nm, "run": "./run_benchmark.sh",
+             "experiments": [Inst(name="%s-%d" % (nm, t)) for t in (1, 2)], "chain_experiments": False}, tag="doc-example-signature-order")
     # D16: `experiments` has the documented default []
     add({"name": "g", "run": "true"}, tag="no-experiments-argument")
     add({"name": "g", "run": "true", "deps": [":t0"]}, tag="no-experiments-argument")
